@@ -634,6 +634,7 @@ where
         {
             let running = &running;
             let workers_left = &workers_left;
+            let failure = &failure;
             scope.spawn(move || {
                 while workers_left.load(Ordering::Relaxed) > 0 {
                     std::thread::sleep(std::time::Duration::from_millis(250));
@@ -648,6 +649,13 @@ where
                                 let path = dir.join(format!("{}-{}-hang-{:012x}.json", report.opts.prop, name, h & 0xffff_ffff_ffff));
                                 let f = Failure { property: report.opts.prop.clone(), check: name.to_string(), sig: "hang/watchdog".into(), msg: format!("case did not return within {watchdog_secs} s of wall time"), scenario };
                                 let _ = std::fs::write(&path, serde_json::to_string_pretty(&f).unwrap_or_default());
+                                // a violation another worker has found (and minimised) in the meantime is reported
+                                // all the same: it stands on its own generated input, whatever the stuck case is
+                                if let Some(fv) = failure.lock().unwrap().take() {
+                                    report.record_failure(fv);
+                                    println!("HANG property={} check={} replay={} (another generated case did not return within {} s)", report.opts.prop, name, path.display(), watchdog_secs);
+                                    std::process::exit(1);
+                                }
                                 println!("HANG property={} check={} replay={} (a generated case did not return within {} s; inconclusive, exit 2)", report.opts.prop, name, path.display(), watchdog_secs);
                                 std::process::exit(2);
                             }
